@@ -42,8 +42,10 @@ LEVEL_TEXT = ("Lean theorems on a token-table model of set_structure/get_structu
               "dropped backbone links restored (two-sided writer<->reader statement), dictionary-implied links of another "
               "type kept in struct_conn and winning the merge (precedence lemma). Altloc first/occupancy policies exact; "
               "mask filtering remaps bond indices consistently; the box is the first model's box (iff statement). dense == "
-              "dict matching. Partial: inter-residue ANY/AROMATIC* and per-model differing boxes (known findings, format "
-              "limits), altloc='all', and text==binary==compressed (proved only relative to the assumed C05/C06 table "
+              "dict matching. Refusals proved and demanded by the oracle: empty structure, empty names with bonds, ambiguous "
+              "struct_conn partner, model index out of range, unequal / interleaved models. Partial: inter-residue ANY/AROMATIC* and per-model differing boxes (known findings, format "
+              "limits), inconsistent components / dictionary fallback without chem_comp_bond / implied backbone links (known "
+              "findings with _defect witnesses, outside WFS), altloc='all', and text==binary==compressed (proved only relative to the assumed C05/C06 table "
               "identities) are covered by correspondence + the write-read oracle through the three real writers")
 LEVEL_NOTE = "CIF text layer, BinaryCIF encodings, float formatting and box trigonometry are trusted/exercised only"
 TECHNIQUE = "Lean 4 proof (induction over row lists / residue groups / dict insertion, composition through readStructure) + correspondence + write-read oracle"
